@@ -183,6 +183,7 @@ PROBES: Dict[str, tuple] = {
              '    e = [b for b in rest if not is_atomic(b[1]) or b[1] in variables]\n    rest = a + e\n    return rest\n', 1),
     'R126': ('def f(tables, out):\n    for name, funcs in tables:\n        def key(role):\n            return [g(role) for g in funcs]\n        out[name] = key\n    return out\n', 1),
     'R127': ('def f(meta):\n    key, value = meta.split(None, 1)\n    return key, value\n', 1),
+    'R139': ('def f(items, m):\n    changed = False\n    out = []\n    for a, b in items:\n        if a in m:\n            changed = True\n            a = m[a]\n        else:\n            sub = g(b)\n            changed = sub is not b\n            b = sub\n        out.append((a, b))\n    if not changed:\n        return items\n    return out\n', 1),
     'R96': ('def f(a) -> str:\n    if a:\n        return "x"\n', 1),
 }
 
